@@ -67,6 +67,23 @@ def window_of(chain_ops, axis_len: Poly, ctx, rule, key, loc):
     """Folds slice/narrow/topk ops into a window [start, stop) of positions along the ordered axis."""
     start, stop = Poly.const(0), axis_len
     problems = []
+    # `for _ in range(B): x = x[c1:-c2]`: the slice is applied B times to its own result — [c1·B, len − c2·B). The fixpoint rounds of the
+    # summarised loop repeat the event; it is folded once, multiplied by the trip count.
+    seen_ids = set()
+    folded = []
+    for e in chain_ops:
+        if e["id"] in seen_ids:
+            continue
+        seen_ids.add(e["id"])
+        rep = [x for x in chain_ops if x["id"] == e["id"]]
+        if e["sop"] == "slice" and e.get("in_loop") and any(e["id"] in x["in_origin"] for x in rep):
+            T = e.get("loop_trip")
+            if T is None or e.get("lo_poly") is None or (e["hi_given"] and e.get("hi_poly") is None):
+                problems.append(f"{e['loc']}: slice applied to its own result in a loop whose number of iterations has no closed form")
+                continue
+            e = dict(e, lo_poly=e["lo_poly"] * T, hi_poly=(e["hi_poly"] * T) if e["hi_given"] else e.get("hi_poly"), loop_folded=True)
+        folded.append(e)
+    chain_ops = folded
     for e in chain_ops:
         if e["sop"] == "topk":
             k = e.get("k_poly")
@@ -88,6 +105,8 @@ def window_of(chain_ops, axis_len: Poly, ctx, rule, key, loc):
             if e["hi_given"]:
                 if hi is None:
                     problems.append(f"{e['loc']}: non-symbolic upper bound")
+                elif hi.terms and all(c < 0 for c in hi.terms.values()) and e.get("loop_folded"):
+                    stop = stop + hi  # (zero iterations leave the tensor untouched: no `[: -0]` is ever evaluated)
                 elif hi.terms and all(c < 0 for c in hi.terms.values()):
                     problems.append(f"{e['loc']}: negative upper bound `{hi}` selects an EMPTY window when it is 0 (python slice semantics)")
                     stop = stop + hi
